@@ -268,7 +268,11 @@ func (g *gen) randEnc(n int, needObj []bool, maxDepth int, in bool) []Enc {
 			// start an object spanning [i, j) ?
 			if depth < maxDepth && (g.coin(0.35) || (!inside && needObj[i])) {
 				j := i + 1 + g.r.Intn(hi-i)
-				out = append(out, Enc{IsObj: true, Obj: build(i, j, depth+1, true), Lay: g.randLay(in)})
+				e := Enc{IsObj: true, Obj: build(i, j, depth+1, true), Lay: g.randLay(in)}
+				if in && inside && !g.noLay && g.coin(0.2) {
+					e.Junk = 1 + g.r.Intn(3)
+				}
+				out = append(out, e)
 				i = j
 				continue
 			}
@@ -326,6 +330,7 @@ func genHistory(r *rand.Rand, p Profile) *History {
 	h.Opts.Recover = g.coin(p.PRecover)
 	h.Opts.RandSeed = r.Int63n(1 << 30)
 	h.Opts.OptOrder = r.Int63n(1 << 30)
+	h.Opts.ReuseInfo = p.PInfo > 0 && g.coin(0.4)
 	// scope tree
 	g.nScopes = 1
 	if p.MaxScopes > 1 && g.coin(0.75) {
@@ -499,15 +504,27 @@ func genHistory(r *rand.Rand, p Profile) *History {
 					}
 				}
 			}
+			if g.coin(g.p.PDup) {
+				// the same group decorated twice by one function: rejected
+				f.Results = append(f.Results, Res{K: gk, Whole: true, N: g.r.Intn(3), Slice: g.randSlice()})
+			}
 		} else {
 			nk := 1
 			if g.coin(0.3) {
 				nk = 2
+				if g.coin(0.25) {
+					nk = 3
+				}
 			}
 			for j := 0; j < nk; j++ {
 				k, ok := g.pickKey(s, -1, false)
 				if !ok {
 					k = g.randSingleKey()
+				}
+				if j > 0 && g.coin(g.p.PDup) {
+					// the decorator lists one of its own keys twice: rejected, and nothing of it may stay
+					// behind for the keys listed before the repetition (C06, C12)
+					k = f.Results[g.r.Intn(len(f.Results))].K
 				}
 				dup := false
 				for _, x := range f.Results {
@@ -515,7 +532,7 @@ func genHistory(r *rand.Rand, p Profile) *History {
 						dup = true
 					}
 				}
-				if dup {
+				if dup && !g.coin(g.p.PDup*4) {
 					continue
 				}
 				f.Results = append(f.Results, Res{K: k})
